@@ -142,6 +142,41 @@ theorem conflict_table_matches_spec (s : Schema) (hd : idsDistinct s = true) (ba
             split at hconf <;> simp_all
     rw [h2, hsch, hs.1, hrow]
 
+/-- on a merge that kept the schema, `resolve --theirs` never refuses -/
+theorem resolve_theirs_same_schema (right : Table) (m : Merged) (hs : m.sch = right.sch) :
+    ∃ m', resolve false right m = .ok m' := by
+  unfold resolve
+  by_cases he : m.conflicts.isEmpty = true
+  · exact ⟨m, by simp [he]⟩
+  · exact ⟨{ m with rows := applyTheirs right.rows m.conflicts m.rows, conflicts := [] }, by simp [he, hs]⟩
+
+/-- **merge_then_resolve (end to end).**  For tables sharing a schema: `dolt_merge` followed by
+`dolt_conflicts_resolve --theirs` succeeds and leaves, for EVERY key, theirs' row (or no row) where
+the cell-wise specification reports a conflict and the specification's merged row everywhere else,
+with no conflicts left; followed by `--ours` it leaves the specification's row everywhere (a
+conflicted key keeps ours' row). -/
+theorem merge_then_resolve (s : Schema) (hd : idsDistinct s = true) (base ours theirs : Rows)
+    (hb : tableOk ⟨s, base⟩ = true) (ho : tableOk ⟨s, ours⟩ = true) (ht : tableOk ⟨s, theirs⟩ = true) :
+    ∃ m mt mo, mergeTable ⟨s, base⟩ ⟨s, ours⟩ ⟨s, theirs⟩ = .ok m ∧
+      resolve false ⟨s, theirs⟩ m = .ok mt ∧ resolve true ⟨s, theirs⟩ m = .ok mo ∧
+      mt.conflicts = [] ∧ mo.conflicts = [] ∧
+      (∀ k, get mt.rows k =
+        if (specKey s (get base k) (get ours k) (get theirs k)).2 = true then get theirs k
+        else (specKey s (get base k) (get ours k) (get theirs k)).1) ∧
+      (∀ k, get mo.rows k = (specKey s (get base k) (get ours k) (get theirs k)).1) := by
+  obtain ⟨m, hm, hsch, hspec⟩ := C29.rowmerge_spec s hd base ours theirs hb ho ht
+  obtain ⟨mt, hmt⟩ := resolve_theirs_same_schema ⟨s, theirs⟩ m hsch
+  obtain ⟨mo, hmo, hrows, _, hco⟩ := resolve_ours ⟨s, theirs⟩ m
+  obtain ⟨hct, hgt⟩ := resolve_theirs ⟨s, theirs⟩ m mt hmt
+  refine ⟨m, mt, mo, hm, hmt, hmo, hct, hco, fun k => ?_, fun k => ?_⟩
+  · have hk := hspec k
+    simp only [Prod.ext_iff] at hk
+    rw [hgt k, ← hk.2, ← hk.1]
+    by_cases hc : k ∈ m.conflicts <;> simp [hc]
+  · have hk := hspec k
+    simp only [Prod.ext_iff] at hk
+    rw [hrows, hk.1]
+
 /-- non-vacuity: a conflicted merge whose resolution with theirs installs theirs' row -/
 example :
     let base : Table := ⟨[⟨1, .int⟩], [(1, [some (.int 1)])]⟩
